@@ -52,8 +52,12 @@ func runCase(c *core.Ctx, i int) {
 		return
 	}
 	rng := c.Rng(i)
-	if i%97 == 13 {
+	if i%53 == 13 {
 		layoutCaseL2(c, rng)
+		return
+	}
+	if i%23 == 7 {
+		loopbackCase(c, rng)
 		return
 	}
 	switch x := rng.Intn(100); {
@@ -466,12 +470,22 @@ func runLayout(c *core.Ctx, w *World, q *QueryDef, l *Layout, emit bool, ctxBase
 		op(fmt.Sprintf("resp %d %s", ctxBase, encodeResp(rootInputs[k])), stateLine(&root.Ctx.MetricContext))
 	}
 	res := root.Finish()
-	// the same deliveries with no effective limit: tells whether the limited answer is determined
-	fullRoot := mk(1 << 20)
-	for _, k := range perm {
-		fullRoot.Ctx.HandleResponse(rootInputs[k], rootFrom[k])
+	// the unlimited answer of the same layout and schedule: tells whether the limited answer is
+	// determined, and is what every row of a limited answer must be taken from. With a small limit
+	// the whole path (leaves included) is run again with the limit lifted, so a limit applied
+	// anywhere below the root shows as a row that is not a row of the unlimited answer.
+	var full *Result
+	if q.Limit >= 100 {
+		fullRoot := mk(1 << 20)
+		for _, k := range perm {
+			fullRoot.Ctx.HandleResponse(rootInputs[k], rootFrom[k])
+		}
+		full = fullRoot.Finish()
+	} else {
+		qq := *q
+		qq.Limit = 1 << 20
+		full = runLayout(c, w, &qq, l, false, ctxBase).res
 	}
-	full := fullRoot.Finish()
 	op(q.resultOp(ctxBase), res.line(q, full))
 	return runOut{res: res, full: full}
 }
@@ -599,7 +613,7 @@ func genQuery(rng *rand.Rand, w *World, multiFunc bool) *QueryDef {
 			q.OrderBy = append(q.OrderBy, OrderDef{Field: s.Field, Func: fn, Desc: rng.Intn(2) == 0})
 			q.Limit = 1 + rng.Intn(3)
 		}
-	} else if len(q.GroupBy) > 0 && rng.Intn(6) == 0 {
+	} else if len(q.GroupBy) > 0 && rng.Intn(3) == 0 {
 		q.Limit = 1 + rng.Intn(2)
 	}
 	return q
@@ -782,12 +796,31 @@ func protocolCase(c *core.Ctx, rng *rand.Rand) {
 		panic(err)
 	}
 	empty, _, _ := RunLeafRec(w, q, &LeafDef{Name: "e", KnownFields: allFieldIdx(w, nil)}, []string{"root"})
+	// the answer of a node that planned other functions for the same fields (primitive series of
+	// aggregate types the root's aggregator does not have)
+	qf := *q
+	qf.Selects = nil
+	for _, s := range q.Selects {
+		fn := function.Max
+		if s.Func == function.Max || q.ftypes[s.Field] == field.MaxField {
+			fn = function.Min
+		}
+		if q.ftypes[s.Field] == field.SumField {
+			qf.Selects = append(qf.Selects, SelectDef{Field: s.Field, Func: fn})
+		} else {
+			qf.Selects = append(qf.Selects, s)
+		}
+	}
+	foreign, _, _ := RunLeafRec(w, &qf, reference(w).Leaves[0], []string{"root"})
 	var rs []*protoCommonV1.TaskResponse
 	var from []string
 	kinds := map[string]int{}
 	for i := 0; i < n; i++ {
 		var r *protoCommonV1.TaskResponse
-		switch x := rng.Intn(20); {
+		switch x := rng.Intn(22); {
+		case x >= 20:
+			r = foreign[0]
+			kinds["foreign"]++
 		case x < 7:
 			r = data[0]
 			kinds["data"]++
@@ -865,7 +898,7 @@ func protocolCase(c *core.Ctx, rng *rand.Rand) {
 			c.Fail("all-notfound-not-an-error", line)
 		}
 	}
-	if len(outs) > 1 {
+	if len(outs) > 1 && kinds["foreign"] == 0 {
 		c.Fail("arrival-order-changes-outcome", strings.Join(lines, " // "))
 	}
 	if kinds["data"] > 0 {
